@@ -130,6 +130,26 @@ def run_closure(ctx, idx):
             gd.write_model(tmp / "w2.rtdc", model2)
             files = [cli.join(paths_in=[p0, tmp / "w2.rtdc"], path_out=tmp / "j.rtdc",
                               ret_path=True)]
+        # a later, separate writer session on the produced file that stores no feature data:
+        # the complete metadata of the source dataset (as export does), a log, a table
+        later = None
+        if rng.random() < 0.45:
+            from dclab import definitions as dfn
+            later = str(rng.choice(["metadata", "log", "metadata+log+table"]))
+            with dclab.new_dataset(p0) as ds:
+                src_meta = {sec: dict(ds.config[sec]) for sec in dfn.CFG_METADATA
+                            if sec in ds.config}
+            for f in files:
+                hmode = str(rng.choice(["append", "replace"]))
+                with dclab.RTDCWriter(f, mode=hmode) as hw:
+                    if "metadata" in later:
+                        hw.store_metadata(src_meta)
+                    if "log" in later:
+                        hw.store_log("later session", ["line one", "line two"])
+                    if "table" in later:
+                        hw.store_table("later_table", {"a": np.arange(3.), "b": np.ones(3)})
+            ctx.count(f"later_session[{later}]")
+            path_kind = f"{path_kind}+later:{later}"
         for f in files:
             try:
                 viol, aler = checked(ctx, f)
